@@ -10,6 +10,7 @@ Does not decide prior densities.  (DESIGN.md section 4, C17-1 ... C17-5.)
 from __future__ import annotations
 
 import ast
+import math
 import re
 from typing import Dict, List, Optional, Set, Tuple
 
@@ -136,6 +137,7 @@ def run(idx: ProgramIndex, rep: Report, tier: str):
     rep.rule("C17-2", "transform(inverse_transform(y)) == y and inverse_transform(transform(x)) == x; default transform/inverse pairing consistent")
     rep.rule("C17-3", "wiring of every constrained parameter: getter, setter, constraint and raw name agree; raw parameters are encapsulated")
     rep.rule("C17-4", "Module.initialize rejects out-of-bounds values on both the Tensor and the float path before writing")
+    rep.rule("C17-7", "inverse link functions are defined exactly on the open range of their forward link and do not clamp (out-of-bounds values become NaN and are rejected)")
     rep.rule("C17-6", "initialize writes exactly the given value into the parameter; sample_from_prior stores prior.sample() through the setting closure")
     rep.rule("C17-5", "prior closures are value-typed; string-named priors name an existing member; setting closures reach the setter of the same parameter")
     transforms(idx, rep)
@@ -231,6 +233,38 @@ def transforms(idx: ProgramIndex, rep: Report):
         kn, vn = (chain(k) or src(k)).split(".")[-1], (chain(v) or src(v)).split(".")[-1]
         ok = INVERSE_OF.get(kn) == vn
         rep.add("C17-2", "gpytorch.utils.transforms:TRANSFORM_REGISTRY[%s]" % kn, tmi.relpath, ok, "%s -> %s" % (kn, vn) if ok else "registry maps %s to %s (expected %s)" % (kn, vn, INVERSE_OF.get(kn)), {})
+    # C17-7: inverse links are partial - defined exactly on the open range of the forward link, and never clamping.  The rejection
+    # of out-of-bounds assignments rests on it: inverse_transform(v) is NaN for v outside the bounds and check_raw(NaN) fails.
+    from ..domains.defdomain import Unknown, clamping_constructs, domain
+    RANGE = {"exp": (0.0, math.inf), "softplus": (0.0, math.inf), "sigmoid": (0.0, 1.0)}
+    n7 = 0
+    for k, v in zip(reg.keys, reg.values):
+        kn, vn = (chain(k) or src(k)).split(".")[-1], (chain(v) or src(v)).split(".")[-1]
+        f = tmi.functions.get(vn)
+        if f is None or kn not in RANGE:
+            continue  # torch.log: a library primitive (defined on (0, inf))
+        n7 += 1
+        x = f.params[0]
+        rets = [r.value for r in ast.walk(f.node) if isinstance(r, ast.Return) and r.value is not None]
+        inst = "gpytorch.utils.transforms:%s[partial inverse of %s]" % (vn, kn)
+        probs7, undecided = [], []
+        for r in rets:
+            cl = clamping_constructs(r)
+            if cl:
+                probs7.append("`%s` clamps its argument (%s): values outside the range of %s get a finite raw value, so an out-of-bounds assignment is accepted instead of rejected" % (" ".join(src(r).split())[:60], ", ".join(cl), kn))
+                continue
+            try:
+                d = domain(r, x)
+            except Unknown as e:
+                undecided.append(str(e))
+                continue
+            if d != RANGE[kn]:
+                probs7.append("`%s` is defined on (%s, %s), the range of %s is (%s, %s)" % (" ".join(src(r).split())[:60], d[0], d[1], kn, RANGE[kn][0], RANGE[kn][1]))
+        if undecided and not probs7:
+            rep.observe("C17-7", inst, f.where, "domain of definedness not decided (%s)" % undecided[0])
+        else:
+            rep.add("C17-7", inst, f.where, not probs7 and bool(rets), "defined exactly on the open range (%s, %s) of %s, no clamping: out-of-range values map to NaN and are rejected by check_raw" % (RANGE[kn][0], RANGE[kn][1], kn) if not probs7 else "; ".join(probs7), {})
+    rep.floor("C17-7", "inverse links analysed", n7, 2)
     # check / check_raw compare against both bounds
     cr = idx.method(interval, "check_raw", own=True)
     t = src(cr.node)
